@@ -150,6 +150,42 @@ def wf (s : PyStr) : Bool :=
   | some ps => balanced ps [] false
   | none => false
 
+/-! ### reading a file: strict UTF-8 decoding (no overlong forms, no surrogates, at most U+10FFFF) -/
+
+def isCont (b : Nat) : Bool := 0x80 ≤ b && b ≤ 0xBF
+
+/-- one code point per step; `none` = the bytes are not UTF-8 -/
+def utf8DecodeF : Nat → List Nat → Option PyStr
+  | 0, _ => none
+  | _+1, [] => some []
+  | f+1, b0 :: r =>
+    if b0 < 0x80 then (utf8DecodeF f r).map (b0 :: ·)
+    else if 0xC2 ≤ b0 ∧ b0 ≤ 0xDF then
+      match r with
+      | b1 :: r1 =>
+        if isCont b1 then (utf8DecodeF f r1).map (((b0 - 0xC0) * 64 + (b1 - 0x80)) :: ·) else none
+      | _ => none
+    else if 0xE0 ≤ b0 ∧ b0 ≤ 0xEF then
+      match r with
+      | b1 :: b2 :: r2 =>
+        let c := (b0 - 0xE0) * 4096 + (b1 - 0x80) * 64 + (b2 - 0x80)
+        if isCont b1 ∧ isCont b2 ∧ 0x800 ≤ c ∧ ¬ (0xD800 ≤ c ∧ c ≤ 0xDFFF) then
+          (utf8DecodeF f r2).map (c :: ·)
+        else none
+      | _ => none
+    else if 0xF0 ≤ b0 ∧ b0 ≤ 0xF4 then
+      match r with
+      | b1 :: b2 :: b3 :: r3 =>
+        let c := (b0 - 0xF0) * 262144 + (b1 - 0x80) * 4096 + (b2 - 0x80) * 64 + (b3 - 0x80)
+        if isCont b1 ∧ isCont b2 ∧ isCont b3 ∧ 0x10000 ≤ c ∧ c < 0x110000 then
+          (utf8DecodeF f r3).map (c :: ·)
+        else none
+      | _ => none
+    else none
+
+/-- `bytes.decode('utf-8')` -/
+def utf8Decode (bytes : List Nat) : Option PyStr := utf8DecodeF (bytes.length + 1) bytes
+
 /-! ### what is in a parsed document -/
 
 /-- name of the root element -/
